@@ -112,10 +112,12 @@ class MetaRunner(object):
         """Launch all runners inside the current `asyncio` event loop"""
         asyncio_loop = asyncio.get_event_loop()
         self._runners = {}
+        point("mr.launch.begin")
         runner_tasks = []
         for runner_type in self.runner_types:
             runner = self._runners[runner_type.flavour] = runner_type(asyncio_loop)
             runner_tasks.append(asyncio_loop.create_task(runner.run()))
+            point("mr.launch.created", flavour=runner_type.flavour.__name__)
         for runner in self._runners.values():
             await runner.ready()
         return runner_tasks
@@ -130,6 +132,7 @@ class MetaRunner(object):
         for flavour, queue in self._runner_queues.items():
             self.register_payload(*queue, flavour=flavour)
             queue.clear()
+            point("mr.unq.cleared", flavour=flavour.__name__)
         self._runner_queues.clear()
         point("mr.unq.end")
 
